@@ -311,11 +311,16 @@ class ThreadingApplication(Application):
             try:
                 self._thread_slots.put(None, timeout=5)
             except queue.Full:
-                answer = self.generate_answer(
-                    recv_message,
-                    result_code=constants.E_RESULT_CODE_DIAMETER_TOO_BUSY,
-                    error_message="Insufficient resources to handle the request")
-                self.send_answer(answer)
+                try:
+                    answer = self.generate_answer(
+                        recv_message,
+                        result_code=constants.E_RESULT_CODE_DIAMETER_TOO_BUSY,
+                        error_message="Insufficient resources to handle the request")
+                    self.send_answer(answer)
+                except Exception as e:
+                    logger.warning(
+                        f"{self} failed to reject message "
+                        f"{hex(recv_message.header.hop_by_hop_identifier)}: {e}")
                 continue
 
             process_message = threading.Thread(
@@ -327,6 +332,11 @@ class ThreadingApplication(Application):
                     f"{self} failed to spawn a thread for calling "
                     f"`handle_request`: {e}, discarded message "
                     f"{hex(recv_message.header.hop_by_hop_identifier)}")
+                # nothing will report back for this message, return its slot
+                try:
+                    self._thread_slots.get(block=False)
+                except queue.Empty:
+                    pass
 
     def _wait_for_resp_msg(self, _thread):
         while True:
@@ -341,18 +351,29 @@ class ThreadingApplication(Application):
             except Exception:
                 pass
             if isinstance(resp_message, Message):
-                self.send_answer(resp_message)
+                try:
+                    self.send_answer(resp_message)
+                except Exception as e:
+                    logger.warning(
+                        f"{self} failed to send answer "
+                        f"{hex(resp_message.header.hop_by_hop_identifier)}: {e}")
 
     def _process_recv_msg(self, message: Message):
+        answer = None
         try:
             answer = self.handle_request(message)
         except Exception as e:
             logger.warning(f"{self} message handling failed: {repr(e)}")
-            answer = self.generate_answer(
-                message,
-                result_code=constants.E_RESULT_CODE_DIAMETER_UNABLE_TO_COMPLY)
-        if answer is not None:
-            self._resp_msg_queue.put(answer)
+            try:
+                answer = self.generate_answer(
+                    message,
+                    result_code=constants.E_RESULT_CODE_DIAMETER_UNABLE_TO_COMPLY)
+            except Exception as e2:
+                logger.warning(
+                    f"{self} failed to build an error answer: {repr(e2)}")
+        # always report back, also without an answer, so that the thread slot
+        # taken for this message is returned
+        self._resp_msg_queue.put(answer)
 
     def handle_request(self, message: Message) -> Message | None:
         """Called by diameter node every time a request message is received.
